@@ -774,6 +774,19 @@ func (c *Ctx) containsSuppliedConvs(ib *ssa.Function, s ssa.Value, at ssa.Instru
 				}
 				return len(x.Common().Args) > 1 && isConvsField(x.Common().Args[1])
 			}
+			// library copies: slices.Clone(b.convs), slices.Concat(b.convs, …)
+			if pk, fn := core.StdCallee(x.Common().StaticCallee()); pk == "slices" && len(x.Common().Args) >= 1 {
+				switch fn {
+				case "Clone":
+					return isConvsField(x.Common().Args[0]) || ok(x.Common().Args[0])
+				case "Concat":
+					for _, e := range sliceElems(x.Common().Args[0], 0, map[ssa.Value]bool{}) {
+						if isConvsField(e) || ok(e) {
+							return true
+						}
+					}
+				}
+			}
 		case *ssa.MakeSlice:
 			// must be the destination of copy(dst, b.convs) before the return, with len >= len(b.convs)
 			copied := false
